@@ -7,14 +7,11 @@ Open Scope N_scope.
 Notation QWd := (@qworld cmap cmap req dstate).
 Notation QLabel := (@qlabel cmap).
 
-Definition q_step_fx (fx : fixes) : QWd -> QLabel -> QWd :=
-  qstep fx candidate candidate_rb rollback_of overlay commit_merge payload record_applied touched restore resync_payload doc_ok
+Definition q_step : QWd -> QLabel -> QWd :=
+  qstep candidate candidate_rb rollback_of overlay commit_merge payload record_applied touched restore resync_payload doc_ok
         dev_apply stamp nil nil nil.
-Definition q_step : QWd -> QLabel -> QWd := q_step_fx no_fixes.
-Definition q_step_fixed : QWd -> QLabel -> QWd := q_step_fx all_fixes.
 Definition q_init : QWd := qinit.
 Definition q_run (ls : list QLabel) : QWd := fold_left q_step ls q_init.
-Definition q_run_fixed (ls : list QLabel) : QWd := fold_left q_step_fixed ls q_init.
 Definition q_enabled (o : oracle) (w : Wd) : list ctrl :=
   enabled_list candidate candidate_rb rollback_of overlay commit_merge payload record_applied touched restore resync_payload doc_ok
                stamp nil nil nil o w.
